@@ -16,7 +16,7 @@ def sh(cmd, **kw):
 def main():
     args = [a for a in sys.argv[1:] if not a.startswith("--")]
     confirm = "--confirm" in sys.argv
-    d, n, pids = args[0], args[1], args[2:]
+    d, n, pids = os.path.abspath(args[0]), args[1], args[2:]
     patch = os.path.join(d, f"patch{n}.diff") if os.path.exists(os.path.join(d, f"patch{n}.diff")) else os.path.join(d, "patch.diff")
     demo = os.path.join(d, f"demo{n}.py") if os.path.exists(os.path.join(d, f"demo{n}.py")) else os.path.join(d, "demo.py")
     assert sh(f"git -C {REPO} status --porcelain --untracked-files=no").stdout.strip() == "", "repo not clean"
@@ -53,6 +53,11 @@ def main():
     finally:
         sh(f"git -C {REPO} checkout -- . && rm -f {REPO}/circuit.r1cs.tmp")
         sh("rm -rf /tmp/seedtmp")
+    if "--record" in sys.argv and os.path.exists(os.path.join(d, "meta.json")):
+        m = json.load(open(os.path.join(d, "meta.json")))
+        for pid in pids:
+            m.setdefault("detected_by", {})[pid] = {"detected": res[pid]["rc"] == 1, "lines": res[pid]["lines"][:2]}
+        json.dump(m, open(os.path.join(d, "meta.json"), "w"), indent=1)
     print(json.dumps(res, indent=1))
 
 
